@@ -1436,9 +1436,13 @@ class Executor:
                     if kind != 'next':
                         continue
                     for n_, text in enumerate(texts):
-                        nm, text = text if isinstance(text, tuple) else ('cut%d' % (n_ + 1), text)
+                        kind_ = 'cut'
+                        if isinstance(text, tuple) and len(text) == 3:
+                            nm, text, kind_ = text      # a cut that states the property itself
+                        else:
+                            nm, text = text if isinstance(text, tuple) else ('cut%d' % (n_ + 1), text)
                         goal = self.spec_bool(text, s2)
-                        self.oblige(s2, 'cut@L%s:%s' % (node.lineno, nm), goal, 'cut', note=text)
+                        self.oblige(s2, 'cut@L%s:%s' % (node.lineno, nm), goal, kind_, note=text)
                         s2.assume(goal)
         # exceptional exits raised while evaluating expressions of this stmt
         new = self.exits[mark:]
